@@ -806,7 +806,8 @@ def r16(ctx):
             if hi and (lo or rv["from"][0] == "u"):
                 ctx.ok(key, "dominated by a range test of its operand", bd.where(b.idx))
                 continue
-            why = R16_LISTED.get((fn_.split("::{closure")[0], cast)) or R16_LISTED.get((re.sub(r"^.*?(\w+::\w+)$", r"\1", fn_), cast))
+            base = c10.nice(re.sub(r"(::\{closure#\d+\})+$", "", bd.path))  # the same arithmetic moved into a closure of the listed function
+            why = R16_LISTED.get((base, cast)) or R16_LISTED.get((fn_.split("::{closure")[0], cast)) or R16_LISTED.get((re.sub(r"^.*?(\w+::\w+)$", r"\1", base), cast))
             if why:
                 ctx.ok(key, "listed: " + why, bd.where(b.idx))
             else:
